@@ -179,8 +179,8 @@ def run (op : String) (a : Json) : Option (Except String Json) :=
       let rec go (p : ParserInst) : List (NsMap × Option NsMap) → List Json
         | [] => []
         | (d, arg) :: rest =>
-          let (p', _, m) := parseCall (Doc := NsMap) (R := Unit) id (fun _ => ()) p d arg
-          jObj [("inst", jmap p'.nsMap), ("arg", jOpt jmap m)] :: go p' rest
+          let (p', r, m) := parseCall (Doc := NsMap) id recBind p d arg
+          jObj [("inst", jmap p'.nsMap), ("arg", jOpt jmap m), ("result", jList jStr r)] :: go p' rest
       pure <| ok (Json.arr (go ⟨[]⟩ cs).toArray)
   | "conc.run" => some do
       let U ← universeOf a
